@@ -12,14 +12,14 @@
  *       if the filter reads `service`: further rows /<row> per service of the inventory = values with `service` bound to it
  *       appends one entry to the case's ApiUser (s = plain string, d = {permission, filter} dictionary)
  *   Q <perm> <types> <prov c|l> [n:T=a[,b..]] [p:T=a,b] [t=Type] [f=<filter>]
- *                                                           | ok <T/name,..|-> | err <kind>   log=<..|?> ft=<truth, e = raises|-> fast=<-|[a,b]> tv=<0|1>
+ *                                                           | ok <T/name,..|-> | err <exception class>   log=<..|?> ft=<truth, e = raises|-> fast=<-|[a,b]> tv=<0|1>
  *       FilterUtility::GetFilterTargets(qd{types, perm, provider}, query, user)
  *       prov c = default ConfigObjectTargetProvider, l = delegating provider that logs every call
  *   A <perm> <types>                                        | <granted> <bits over the inventory, x = other type>
  *       HasPermission(user, perm, &filter) then EvaluateFilter(filter, obj) for every inventory object of
  *       the given types - what ObjectQueryHandler does for joined objects
  *
- *   H <q|m> <Host|Service> [n=name] [p=a,b] [f=<filter>] [j]  | <http status> <T/name,..|-> jn=<names|-> ft=.. fast=..
+ *   H <q|m> <Host|Service> [n=name] [p=a,b] [f=<filter>] [j]  | <http status> <T/name,..|-> cnt=<results> jn=<names|-> ft=.. fast=..
  *       a whole request through the production dispatcher HttpHandler::ProcessRequest:
  *       q = GET /v1/objects/<plural>[/name] (ObjectQueryHandler, attrs=[name]; j adds joins=[host.name] and jn lists the
  *       returned services - among those whose host is in the inventory - for which the joined host was included),
@@ -66,9 +66,6 @@
 using namespace icinga;
 using namespace vh;
 
-namespace vh {
-VH_ROB_MEMBER(SvcHostTag, Service, Host::Ptr, m_Host)
-}
 
 /* ------------------------------------------------------------------------------------------ strings */
 
@@ -159,7 +156,14 @@ static Service::Ptr GetService(const std::string& full)
 	s->SetName(full);
 	s->SetHostName(hn);
 	s->SetShortName(sn);
-	(*s).*get(SvcHostTag()) = GetHost(hn);
+	/* the service learns its host the way the daemon does it (public API only): OnAllConfigLoaded() looks the
+	 * host up by name, so the host is registered for the duration of the call */
+	Host::Ptr h = GetHost(hn);
+	bool registered = ConfigObject::GetObject("Host", hn) != nullptr;
+	if (!registered) h->Register();
+	static_pointer_cast<ConfigObject>(s)->OnAllConfigLoaded();
+	if (!registered) h->Unregister();
+	if (s->GetHost() != h) { fprintf(stderr, "service %s did not find its host\n", full.c_str()); _exit(4); }
 	SetMask(s, 0);
 	l_Services[full] = s;
 	return s;
@@ -440,17 +444,6 @@ public:
 
 /* ------------------------------------------------------------------------------------------ operations */
 
-static const char *ErrKind(const std::string& msg)
-{
-	if (msg.find("Missing permission:") != std::string::npos) return "perm";
-	if (msg.find("Object does not exist.") != std::string::npos) return "notfound";
-	if (msg.find("Access denied to object") != std::string::npos) return "denied";
-	if (msg.find("Type must be specified when using a filter.") != std::string::npos) return "notype";
-	if (msg.find("Invalid type specified for this query.") != std::string::npos) return "wrongtype";
-	if (msg.find("Invalid type specified.") != std::string::npos) return "badtype";
-	return "other";
-}
-
 static std::string TypeOf(const std::string& t) { return t == "H" ? "Host" : t == "S" ? "Service" : t; }
 
 static bool DoM(const std::vector<std::string>& w)
@@ -589,8 +582,12 @@ static bool DoQ(const std::vector<std::string>& w)
 		obs = "ok ";
 		if (names.empty()) obs += "-";
 		for (size_t i = 0; i < names.size(); i++) obs += (i ? "," : "") + names[i];
-	} catch (const std::exception& ex) {
-		obs = std::string("err ") + ErrKind(DiagnosticInformation(ex, false).GetData());
+	} catch (const ScriptError&) {
+		obs = "err script";   /* informative only: the driver compares success against failure, never the kind or the text */
+	} catch (const std::invalid_argument&) {
+		obs = "err arg";
+	} catch (const std::exception&) {
+		obs = "err other";
 	}
 	std::string log = "?";
 	if (lp) {
@@ -680,7 +677,8 @@ static bool Dispatch(boost::beast::http::request<boost::beast::http::string_body
 
 /* verbs: q = GET /v1/objects, m = POST /v1/objects (attrs={}), d = DELETE /v1/objects (the objects were not created through
  * the API, so every deletion is refused with code 500 and nothing changes), a:<action> = POST /v1/actions/<action>
- * (type and name travel as URL parameters; results carry the object name only inside the status text) */
+ * (type and name travel as URL parameters; the objects acted on are read off the objects: next_check moved / acknowledgement
+ * cleared, so for actions the name list is a set and cnt the number of results) */
 static bool DoH(const std::vector<std::string>& w)
 {
 	namespace http = boost::beast::http;
@@ -688,6 +686,7 @@ static bool DoH(const std::vector<std::string>& w)
 	std::string verb = w[1];
 	bool action = verb.compare(0, 2, "a:") == 0;
 	if (!action && verb != "q" && verb != "m" && verb != "d") return false;
+	if (action && verb != "a:reschedule-check" && verb != "a:remove-acknowledgement") return false;
 	bool svc = w[2] == "Service";
 	if (!svc && w[2] != "Host") return false;
 	std::string target = action ? "/v1/actions/" + verb.substr(2) : std::string("/v1/objects/") + (svc ? "services" : "hosts");
@@ -728,9 +727,17 @@ static bool DoH(const std::vector<std::string>& w)
 	http::verb hv = verb == "q" ? http::verb::get : verb == "d" ? http::verb::delete_ : http::verb::post;
 	http::request<http::string_body> req{hv, target + qs, 11};
 	req.body() = JsonEncode(body).GetData();
+	const double kSentinel = 1000.0;
+	if (action)
+		for (auto& it : l_Inv) {
+			Checkable::Ptr c = static_pointer_cast<Checkable>(it.obj);
+			c->SetNextCheck(kSentinel);
+			c->SetAcknowledgementRaw(AcknowledgementNormal);
+		}
 	http::response<http::string_body> resp;
 	bool ok = Dispatch(req, resp);
 	std::vector<std::string> names, joined;
+	long count = 0;
 	int status = !ok ? 599 : (int)resp.result_int();
 	if (status == 200 || status == 500) {
 		try {
@@ -740,17 +747,17 @@ static bool DoH(const std::vector<std::string>& w)
 			for (const Dictionary::Ptr& one : results) {
 				std::string nm, ty;
 				if (action) {
-					std::string st = String(one->Get("status")).GetData();
-					auto a = st.find('\''), b = st.rfind('\'');
-					if (a == std::string::npos || b <= a) { status = 597; break; }
-					nm = st.substr(a + 1, b - a - 1);
-					ty = nm.find('!') == std::string::npos ? "Host" : "Service";
+					/* an action's result names its object only inside a human-readable text: count it here, the
+					 * objects acted on are read off the objects themselves below */
+					count++;
 					if ((int)one->Get("code") != 200) status = 596;
+					continue;
 				} else {
 					nm = String(one->Get("name")).GetData();
 					ty = String(one->Get("type")).GetData();
 				}
 				names.push_back(ty + "/" + nm);
+				count++;
 				Dictionary::Ptr j = one->Get("joins");
 				bool hostKnown = false;
 				auto pos = nm.find('!');
@@ -760,12 +767,19 @@ static bool DoH(const std::vector<std::string>& w)
 			}
 		} catch (const std::exception&) { status = 598; }
 	}
+	if (action)
+		for (auto& it : l_Inv) {
+			/* which objects did the action act on? reschedule-check moves next_check, remove-acknowledgement clears the mark */
+			Checkable::Ptr c = static_pointer_cast<Checkable>(it.obj);
+			bool acted = verb == "a:reschedule-check" ? c->GetNextCheck() != kSentinel : c->GetAcknowledgementRaw() == AcknowledgementNone;
+			if (acted) names.push_back(std::string(it.host ? "Host/" : "Service/") + it.name);
+		}
 	std::sort(names.begin(), names.end());
 	std::sort(joined.begin(), joined.end());
 	auto join = [](const std::vector<std::string>& v) { std::string o; for (size_t i = 0; i < v.size(); i++) o += (i ? "," : "") + v[i]; return o.empty() ? std::string("-") : o; };
 	std::string pre;
 	for (size_t i = 0; i < w.size(); i++) pre += (i ? " " : "") + w[i];
-	printf("%s | %d %s jn=%s ft=%s fast=%s\n", pre.c_str(), status, join(names).c_str(), join(joined).c_str(), ft.c_str(), fast.c_str());
+	printf("%s | %d %s cnt=%ld jn=%s ft=%s fast=%s\n", pre.c_str(), status, join(names).c_str(), count, join(joined).c_str(), ft.c_str(), fast.c_str());
 	return true;
 }
 
